@@ -142,6 +142,14 @@ func dirName(t publictypes.StreamType) string {
 
 type probe struct{ key string }
 
+// probeActs: "<flow>/<key>" -> which actions the probe reports (processor parameter `act`, set per case):
+//
+//	side (default)  the action of the side it runs on: ReqAction on the request side, RespAction on the response side
+//	resp            always a RespAction (like GenerateResponse / ReadCache / Retry / UserDefinedTraces)
+//	both            both
+//	none            no action
+var probeActs = map[string]string{}
+
 func (p *probe) GetName() string { return p.key }
 
 func (p *probe) GetRequirement() *streamtypes.ProcessorRequirement {
@@ -166,7 +174,19 @@ func (p *probe) Execute(flowName string, apiStream publictypes.APIStreamI) (stre
 		var act actions.ReqLunarAction = &actions.EarlyResponseAction{Status: 418, Body: flowName + "/" + p.key}
 		return streamtypes.ProcessorIO{Type: publictypes.StreamTypeResponse, Name: v.name, ReqAction: act}, nil
 	}
-	return streamtypes.ProcessorIO{Type: apiStream.GetType(), Name: v.name}, nil
+	io := streamtypes.ProcessorIO{Type: apiStream.GetType(), Name: v.name}
+	act := probeActs[flowName+"/"+p.key]
+	if act == "" {
+		act = "side"
+	}
+	onReq := apiStream.GetType().IsRequestType()
+	if act == "both" || (act == "side" && onReq) {
+		io.ReqAction = &actions.NoOpAction{}
+	}
+	if act == "both" || act == "resp" || (act == "side" && !onReq) {
+		io.RespAction = &actions.NoOpAction{}
+	}
+	return io, nil
 }
 
 func probeFactory(md *streamtypes.ProcessorMetaData) (streamtypes.ProcessorI, error) {
@@ -463,6 +483,16 @@ func classifyLoadErr(err error) string {
 
 // materialise writes the configuration into a fresh temp dir and points the engine's environment at it.
 func materialise(c *caseCfg) string {
+	probeActs = map[string]string{}
+	for _, f := range c.flows {
+		for _, p := range f.procs {
+			for _, kv := range p.params {
+				if kv[0] == "act" {
+					probeActs[f.name+"/"+p.key] = kv[1]
+				}
+			}
+		}
+	}
 	dir, err := os.MkdirTemp("", "c05-")
 	if err != nil {
 		panic(err)
@@ -525,11 +555,14 @@ func liveLoad(c *caseCfg) (*streams.Stream, error) {
 	return s, nil
 }
 
-func newActions() *streamconfig.StreamActions {
-	return &streamconfig.StreamActions{
-		Request:  &streamconfig.RequestStream{},
-		Response: &streamconfig.ResponseStream{},
+// newActions allocates the action lists exactly as routing.processRequest / processResponse do: a request
+// message gets ONLY the request list, a response message ONLY the response list (the response flow of an early
+// response runs inside the request transaction and must not touch the other list).
+func newActions(dir string) *streamconfig.StreamActions {
+	if dir == "req" {
+		return &streamconfig.StreamActions{Request: &streamconfig.RequestStream{}}
 	}
+	return &streamconfig.StreamActions{Response: &streamconfig.ResponseStream{}}
 }
 
 // runTxn executes one probe transaction on the test URL: (result class, number of probe executions).
@@ -548,7 +581,7 @@ func (e *engine) runTxn(dir string, oracle map[string]outVal) (string, int) {
 		}, lunar_context.NewMemoryState[[]byte]())
 	}
 	api := &obsStream{APIStreamI: inner, st: st}
-	err := e.live.ExecuteFlow(api, newActions())
+	err := e.live.ExecuteFlow(api, newActions(dir))
 	res := "ok"
 	if err != nil {
 		m := err.Error()
@@ -587,5 +620,5 @@ func (e *engine) runRaw(dir, method, url, path, query, hdr, body string, status 
 		}, lunar_context.NewMemoryState[[]byte]())
 	}
 	api := &obsStream{APIStreamI: inner, st: st}
-	_ = e.live.ExecuteFlow(api, newActions())
+	_ = e.live.ExecuteFlow(api, newActions(dir))
 }
